@@ -178,6 +178,17 @@ func (c *Ctx) resolveX(v ssa.Value, e *env, strip bool) (ssa.Value, *env) {
 						continue
 					}
 				}
+				// element k of a literal slice (an inlined helper ranging over its variadic arguments)
+				if ia, ok := x.X.(*ssa.IndexAddr); ok && e != nil && !e.dom {
+					if _, isSl := ia.X.Type().Underlying().(*types.Slice); isSl {
+						if n, isC := constIntVal(c.resolve(ia.Index, e)); isC {
+							if lit, le, ok := c.sliceLiteralE(ia.X, e); ok && n >= 0 && int(n) < len(lit) && lit[n] != nil {
+								v, e = lit[n], le
+								continue
+							}
+						}
+					}
+				}
 			}
 			return v, e
 		case *ssa.MakeInterface:
@@ -195,6 +206,34 @@ func (c *Ctx) resolveX(v ssa.Value, e *env, strip bool) (ssa.Value, *env) {
 		case *ssa.ChangeInterface:
 			v = x.X
 			continue
+		case *ssa.BinOp:
+			// integer arithmetic on path constants (loop counters over a literal argument list)
+			if e == nil || e.dom || (x.Op != token.ADD && x.Op != token.SUB) {
+				return v, e
+			}
+			l, r := c.resolve(x.X, e), c.resolve(x.Y, e)
+			ln, lok := constIntVal(l)
+			rn, rok := constIntVal(r)
+			if !lok || !rok {
+				return v, e
+			}
+			n := ln + rn
+			if x.Op == token.SUB {
+				n = ln - rn
+			}
+			return ssa.NewConst(constant.MakeInt64(n), x.Type()), e
+		case *ssa.Call:
+			if e == nil || e.dom {
+				return v, e
+			}
+			if bi, ok := x.Call.Value.(*ssa.Builtin); ok && bi.Name() == "len" && len(x.Call.Args) == 1 {
+				if _, isSl := x.Call.Args[0].Type().Underlying().(*types.Slice); isSl {
+					if lit, _, ok := c.sliceLiteralE(x.Call.Args[0], e); ok {
+						return ssa.NewConst(constant.MakeInt64(int64(len(lit))), x.Type()), e
+					}
+				}
+			}
+			return v, e
 		default:
 			return v, e
 		}
@@ -510,6 +549,35 @@ func fieldVar(t types.Type, i int) *types.Var {
 	return nil
 }
 
+// constRange: v is an integer constant or a phi of integer constants; its smallest and largest value.
+func constRange(v ssa.Value, depth int) (lo, hi int64, ok bool) {
+	if n, isC := constIntVal(v); isC {
+		return n, n, true
+	}
+	ph, isPhi := v.(*ssa.Phi)
+	if !isPhi || depth > 3 {
+		return 0, 0, false
+	}
+	first := true
+	for _, e := range ph.Edges {
+		if e == ssa.Value(ph) {
+			continue
+		}
+		l, h, ok := constRange(e, depth+1)
+		if !ok {
+			return 0, 0, false
+		}
+		if first || l < lo {
+			lo = l
+		}
+		if first || h > hi {
+			hi = h
+		}
+		first = false
+	}
+	return lo, hi, !first
+}
+
 // foldCmp decides an ==/!= comparison whose operands are known along the path: two constants, or nil
 // against a value that cannot be nil (a fresh error from fmt.Errorf/errors.New, a boxed value, an
 // allocation, a function).
@@ -525,6 +593,28 @@ func (c *Ctx) foldCmp(cond ssa.Value, e *env) (val, ok bool) {
 		cond, e = c.resolveE(u.X, e)
 	}
 	bo, isB := cond.(*ssa.BinOp)
+	if isB && (bo.Op == token.LSS || bo.Op == token.LEQ || bo.Op == token.GTR || bo.Op == token.GEQ) {
+		ln, lok := constIntVal(c.resolve(bo.X, e))
+		rn, rok := constIntVal(c.resolve(bo.Y, e))
+		if !lok || !rok {
+			return false, false
+		}
+		var res bool
+		switch bo.Op {
+		case token.LSS:
+			res = ln < rn
+		case token.LEQ:
+			res = ln <= rn
+		case token.GTR:
+			res = ln > rn
+		default:
+			res = ln >= rn
+		}
+		if neg {
+			res = !res
+		}
+		return res, true
+	}
 	if !isB || (bo.Op != token.EQL && bo.Op != token.NEQ) {
 		return false, false
 	}
@@ -673,6 +763,19 @@ func (c *Ctx) atoms(cond ssa.Value, pol bool, e *env) []Atom {
 							return []Atom{{Kind: "len", Subj: c.key(base, be), Op: op, N: n + a + b, Src: cond}}
 						}
 						return []Atom{{Kind: "len", Subj: c.key(call.Call.Args[0], le), Op: op, N: n, Src: cond}}
+					}
+				}
+			}
+			// len(x) == one of several constants (a phi of constants): bounds on len
+			if call, ok := l.(*ssa.Call); ok && op == "==" {
+				if bi, ok := call.Call.Value.(*ssa.Builtin); ok && bi.Name() == "len" {
+					if lo, hi, ok := constRange(r, 0); ok {
+						k := c.key(call.Call.Args[0], le)
+						return []Atom{
+							{Kind: "cmp", Subj: c.key(l, le), Op: op, Val: c.key(r, re), Src: cond},
+							{Kind: "len", Subj: k, Op: ">=", N: lo, Src: cond},
+							{Kind: "len", Subj: k, Op: "<=", N: hi, Src: cond},
+						}
 					}
 				}
 			}
